@@ -2,11 +2,48 @@
 use crate::ctx::Ctx;
 use serde_json::Value;
 
+pub mod agent;
+pub mod agent_props;
+pub mod builder;
+pub mod c01;
+pub mod c02;
+pub mod c03;
+pub mod c04;
+pub mod c08;
+pub mod c09;
+pub mod c10;
+pub mod c11;
+pub mod c12;
+pub mod c13;
+pub mod c14;
+pub mod c16;
+pub mod c17;
 pub mod c19;
+pub mod codec;
+pub mod streams;
 
 /// Run the workload of property `prop` in `ctx`.
 pub fn run(prop: &str, ctx: &mut Ctx) -> Result<(), String> {
     match prop {
+        "C01" => c01::run(ctx),
+        "C08" => c08::run(ctx),
+        "C02" => c02::run(ctx),
+        "C03" => c03::run(ctx),
+        "C04" => c04::run(ctx),
+        "C09" => c09::run(ctx),
+        "C10" => c10::run(ctx),
+        "C11" => c11::run(ctx),
+        "C12" => c12::run(ctx),
+        "C13" => c13::run(ctx),
+        "C14" => c14::run(ctx),
+        "C16" => c16::run(ctx),
+        "C17" => c17::run(ctx),
+        "C05" => agent_props::run_c05(ctx),
+        "C06" => agent_props::run_c06(ctx),
+        "C07" => agent_props::run_c07(ctx),
+        "C15" => agent_props::run_c15(ctx),
+        "C18" => agent_props::run_c18(ctx),
+        "C20" => agent_props::run_c20(ctx),
         "C19" => c19::run(ctx),
         _ => return Err(format!("no monitor for {prop}")),
     }
@@ -16,6 +53,25 @@ pub fn run(prop: &str, ctx: &mut Ctx) -> Result<(), String> {
 /// Re-execute one recorded witness.
 pub fn replay(prop: &str, ctx: &mut Ctx, witness: &Value) -> Result<(), String> {
     match prop {
+        "C01" => c01::replay(ctx, witness),
+        "C08" => c08::replay(ctx, witness),
+        "C02" => c02::replay(ctx, witness),
+        "C03" => c03::replay(ctx, witness),
+        "C04" => c04::replay(ctx, witness),
+        "C09" => c09::replay(ctx, witness),
+        "C10" => c10::replay(ctx, witness),
+        "C11" => c11::replay(ctx, witness),
+        "C12" => c12::replay(ctx, witness),
+        "C13" => c13::replay(ctx, witness),
+        "C14" => c14::replay(ctx, witness),
+        "C16" => c16::replay(ctx, witness),
+        "C17" => c17::replay(ctx, witness),
+        "C05" => agent_props::replay(ctx, witness),
+        "C06" => agent_props::replay(ctx, witness),
+        "C07" => agent_props::replay(ctx, witness),
+        "C15" => agent_props::replay(ctx, witness),
+        "C18" => agent_props::replay(ctx, witness),
+        "C20" => agent_props::replay(ctx, witness),
         "C19" => c19::replay(ctx, witness),
         _ => Err(format!("no monitor for {prop}")),
     }
